@@ -53,6 +53,8 @@ DEFAULTS = {
     'dc_offset': None,         # [(template, channel, offset)]: constant added to one channel of a template
     'sparse_neg': None,        # per template: index of a stored column that is negative-only, or None
     'feat_rows': None, 'tfeat_rows': None,     # explicit row tables for 'sparse_rows_list'
+    'ks2_templates_ind': False,    # dense KS naming: also write KiloSort2's templates_ind.npy (every row 0..nc-1),
+                                   # a file the loader ignores
     'tsv': {},                 # extra per-cluster TSV files {name: {'field': f, 'values': {id: v}}}
     'fill': 0,
 }
@@ -316,6 +318,8 @@ def make_dataset(d, spec=None):
         truth['templates_data'] = T
         truth['templates_cols'] = None
         save('templates.npy', T)
+        if s['ks2_templates_ind']:
+            save('templates_ind.npy', np.tile(np.arange(nc, dtype=np.float64), (nt, 1)))
     truth['templates_dense'] = T
 
     # --- whitening, similarity
